@@ -23,6 +23,18 @@ class Boom(Exception):
     pass
 
 
+# the same fault as an instance of classes that clean-up code is tempted to tolerate (a vanished file, a missing key, a closed pool)
+class BoomFileNotFound(Boom, FileNotFoundError):
+    pass
+
+
+class BoomKey(Boom, KeyError):
+    pass
+
+
+BOOMS = [Boom, BoomFileNotFound, BoomKey]
+
+
 def cases(tier, seed):
     for entry in ("marginal", "rejection", "iterative"):
         for src in ("object", "file"):
@@ -101,7 +113,7 @@ def check(inp):
         def f(*a, **k):
             count["n"] += 1
             if count["n"] == inp["k"]:
-                raise Boom(f"injected at {inp['site']} #{inp['k']}")
+                raise BOOMS[inp['k'] % 3](f"injected at {inp['site']} #{inp['k']}")
             return orig(*a, **k)
         return f
     patches = []
